@@ -336,7 +336,18 @@ def run_batch(prop: str, tier: str, base_seed: int, jobs: int) -> int:
             det_checked += 1
             if r['event_digest'] != by_idx[r['idx']]['event_digest']:
                 det_failed.append(r['idx'])
-    return finish(chk, prop, tier, base_seed, jobs, records, harness_errors, det_checked, det_failed, t_start)
+    extra_cov = None
+    if hasattr(chk, 'batch_extra') and not harness_errors:
+        try:
+            xvs, extra_cov = chk.batch_extra(tier)
+        except Exception as ex:
+            xvs = []
+            harness_errors.append(f'batch_extra failed: {type(ex).__name__}: {ex}')
+        if xvs:
+            records.append({'idx': -1, 'violations': xvs, 'spec_digest': 'real-probe', 'sched_digest': 'real-probe',
+                            'event_digest': None, 'order': [], 'nontrivial': False, 'faults': {}, 'probes': {},
+                            'backend': 'real-os', 'outcome': 'probe', 'batch_extra': True})
+    return finish(chk, prop, tier, base_seed, jobs, records, harness_errors, det_checked, det_failed, t_start, extra_cov)
 
 
 def finish(chk, prop, tier, base_seed, jobs, records, harness_errors, det_checked, det_failed, t_start,
@@ -477,6 +488,15 @@ def make_replay(chk, prop, tier, base_seed, idx, hashseed, v, r):
     draws = r.get('draws')
     info = {'minimised': False}
     rec = r
+    if r.get('batch_extra'):
+        data = {'property': prop, 'tier': tier, 'seed': base_seed, 'run_index': -1, 'pythonhashseed': 0,
+                'kind': 'batch_extra', 'draws': None,
+                'violation': {'code': v['code'], 'sig': v['sig'], 'detail': v['detail']},
+                'event_digest': None, 'repo': repo_rev(),
+                'note': 'real-OS probe scenario (fixed matrix); replay re-runs the probe'}
+        with open(path, 'w') as f:
+            json.dump(data, f, indent=1, default=repr)
+        return path, {'minimised': False, 'reason': 'fixed real-OS probe scenario'}
     if draws is not None:
         job = {'prop': prop, 'tier': tier, 'draws': draws, 'target': {'code': v['code'], 'sig': v['sig']},
                'budget_runs': 300, 'budget_s': 60}
@@ -522,7 +542,10 @@ def replay_main() -> int:
     real_stdout = os.fdopen(os.dup(1), 'w')
     sys.stdout = open(os.devnull, 'w')
     try:
-        if hasattr(chk, 'replay'):
+        if data.get('kind') == 'batch_extra':
+            xvs, _cov = chk.batch_extra(data['tier'])
+            rec = {'violations': xvs, 'event_digest': None}
+        elif hasattr(chk, 'replay'):
             rec = chk.replay(data, workdir)
         else:
             rec = chk.run(Choices(replay=data['draws']), workdir, data['tier'])
@@ -568,6 +591,9 @@ def main(argv) -> int:
     if len(argv) >= 3 and argv[1] == 'selftest':
         from . import selftest
         return selftest.main(argv[2:])
+    if len(argv) >= 2 and argv[1] == '_smoke':
+        from . import selftest
+        return selftest.smoke()
     if len(argv) >= 2 and argv[1] == 'setup':
         from . import selftest
         return selftest.setup()
